@@ -393,8 +393,30 @@ def apply_edit(st, op) -> bool:
     return json.dumps(st, sort_keys=True) != before
 
 
-def history(seed: int, nmods: int, nsteps: int):
+PROFILES = {
+    # daemon-friendly fragments, enabled construct by construct (C03 saturation protocol)
+    "basic": {"edits": ["change_export", "change_export", "add_export", "remove_export", "add_use", "remove_use", "change_use", "toggle_ignore", "fix_errors", "set_base"],
+              "styles": ["import", "import", "from"], "kinds": ["func", "func", "cls", "cls", "const", "alias", "box", "nt", "dc", "enum", "ovl"]},
+    "structure": {"edits": ["change_export", "add_export", "remove_export", "add_use", "remove_use", "change_use", "add_import", "remove_import", "restyle_import", "toggle_broken", "toggle_ignore",
+                            "delete_module", "add_module", "set_base", "fix_errors"],
+                  "styles": ["import", "import", "from", "func", "tc"], "kinds": ["func", "func", "cls", "cls", "const", "alias", "box", "proto", "nt", "td", "dc", "enum", "ovl", "deco"]},
+}
+
+
+def history(seed: int, nmods: int, nsteps: int, profile: str | None = None):
     """Deterministic (initial state, [ops]) from a seed; every op changes the rendered project."""
+    global EDIT_KINDS, IMPORT_STYLES, EXPORT_KINDS
+    saved = (EDIT_KINDS, IMPORT_STYLES, EXPORT_KINDS)
+    if profile:
+        pr = PROFILES[profile]
+        EDIT_KINDS, IMPORT_STYLES, EXPORT_KINDS = pr["edits"], pr["styles"], pr["kinds"]
+    try:
+        return _history(seed, nmods, nsteps)
+    finally:
+        EDIT_KINDS, IMPORT_STYLES, EXPORT_KINDS = saved
+
+
+def _history(seed: int, nmods: int, nsteps: int):
     rnd = random.Random(seed)
     st0 = initial(rnd, nmods)
     st = copy.deepcopy(st0)
